@@ -20,7 +20,9 @@ def replay_roundtrip(msgs, enc, blocked, cfg, many=None, closes=1):
                 w.write(dict(m))
         for _ in range(closes):
             w.close()
-        got = list(mciipm.IpmReader(f, encoding=enc, blocked=blocked, **kw))
+        rd = mciipm.IpmReader(f, encoding=enc, blocked=blocked, **kw)
+        got = [next(rd)] if len(ms) >= 2 else []
+        got += list(rd)
     except Exception as e:
         return True, 'raised %s: %s' % (type(e).__name__, e), 'C06/exception'
     if len(got) != len(ms):
